@@ -165,10 +165,20 @@ func (e *storeEnv) collectorReleases() int {
 	return int(counterValue(e.releaseCounter) - e.releaseBase)
 }
 
-// releases: blocks handed back to the allocator since the store was built.
+// releases: has any block been rotated out since the store was built? For
+// stores built from parts the recording allocator counts Release() calls. A
+// configured store only has the allocator's collector, which moves when the
+// last reference of a block is dropped - a reader that is still open defers
+// it - so there a rotation is inferred from the allocation count as well:
+// the block list pops its oldest block exactly when more blocks have been
+// allocated than it can hold.
 func (w *storeWorld) releases() int {
 	if w.e.alloc == nil {
-		return w.e.collectorReleases()
+		n := w.e.collectorReleases()
+		if over := w.allocs() - (w.cfg.Old + w.cfg.Cur + w.cfg.New); over > n {
+			n = over
+		}
+		return n
 	}
 	return w.e.alloc.Releases
 }
